@@ -47,6 +47,33 @@ def _is_num(s):
         return False
 
 
+TOKCHARS = [ch for ch in (chr(i) for i in range(33, 127)) if ch != "#"]
+
+
+def text_column(rng, nr, tag):
+    """a text column inside the property's quantifier: tokens free of whitespace and '#', not starting with '_', and the column
+    not purely numeric -- but single tokens may look numeric, may contain quotes, commas, semicolons, backslashes, '=' ..."""
+    mode = int(rng.integers(0, 5))
+    out = []
+    for i in range(nr):
+        if mode == 0:
+            t = f"img/t{int(rng.integers(0, 999)):03d}_{tag}.mrc"
+        elif mode == 1:  # arbitrary printable tokens of 1..24 characters
+            t = "".join(rng.choice(TOKCHARS, size=int(rng.integers(1, 25))))
+        elif mode == 2:  # numeric-looking tokens mixed with text
+            t = str(rng.choice(["17", "018", "2.50", "-3", "1e5", "TS_018", "none", "nan_x", "0x1F", "+7"]))
+        elif mode == 3:  # quotes and separators inside tokens
+            t = str(rng.choice(['TS_01"bin4".mrc', 'a"b', "it's", '"q"', "a,b", "x;y", "p\\q", 'say""twice', "'", '"'])) + str(int(rng.integers(0, 9)))
+        else:
+            t = str(rng.choice(["A", "B", "True", "False", "None", "NA", "null", "<NA>", "-", "1/2", "e", "inf_", "dat_x", "loopx"]))
+        if t.startswith("_") or t.lower().startswith(("data_", "loop_", "save_", "global_", "stop_")):
+            t = "u" + t  # STAR reserved words cannot be data values
+        out.append(t)
+    if nr and all(_is_num(t) for t in out):
+        out[int(rng.integers(0, nr))] = "txt" + tag
+    return out
+
+
 def gen_cases(seed, n_cases):
     rng = np.random.default_rng(seed + 202)
     for ci in range(n_cases):
@@ -72,7 +99,7 @@ def _random_tables(rng):
             elif kind == "float":
                 d[name] = np.round(rng.normal(0, 10.0 ** int(rng.integers(-3, 4)), nr), int(rng.integers(0, 9)))
             else:
-                d[name] = np.array([f"img/t{int(v):03d}_{c}.mrc" for v in rng.integers(0, 999, nr)], dtype=object)
+                d[name] = np.array(text_column(rng, nr, str(c)), dtype=object)
         frames.append(pd.DataFrame(d))
     return frames, specs
 
@@ -145,11 +172,12 @@ def _check_text(c, rng, tmp):
         for _ in range(int(rng.integers(0, 2))):
             lines.append(rng.choice(["", "# comment after labels"]))
         nr = int(rng.integers(1, 8))
+        tcols = {j: text_column(rng, nr, str(j)) for j, kd in enumerate(kinds) if kd == "text"}
         rows = []
         for r in range(nr):
             cells = []
-            for kd in kinds:
-                cells.append(str(int(rng.integers(-50, 50))) if kd == "int" else (f"{rng.normal():.5f}" if kd == "float" else f"name_{int(rng.integers(0, 99))}.mrc"))
+            for j, kd in enumerate(kinds):
+                cells.append(str(int(rng.integers(-50, 50))) if kd == "int" else (f"{rng.normal():.5f}" if kd == "float" else tcols[j][r]))
             rows.append(cells)
             lines.append((ws() if rng.random() < 0.3 else "") + ws().join(cells) + (ws() if rng.random() < 0.3 else ""))
         lines.append("")
